@@ -162,6 +162,18 @@ claim('C17',
       'Transformation and leading matrices enumerated; real coefficients in [-1,1]; equality to 1e-8 at the evaluation set; Lmax=4.',
       'DESIGN.md 3/C17')
 
+claim('C20',
+      'Bounded symbolic verification: for EVERY subgroup of m-3m (standard and rotated setting) and 6/mmm taken as a site group the real '
+      'GroupOp.eigen / VectorBasis / SymmTensorBasis / CombineVectorBasis / CombineTensorBasis produce bases for which z3 decides, for a '
+      'symbolic vector and symbolic symmetric tensor, invariant under the group <=> in the span of the basis (both directions), bases '
+      'orthonormal; for every site of the crystal library the Crystal-level bases against the site point group, the point group fixing '
+      'its site for every lattice translation, Wyckoff sets == orbits; Crystal.Wyckoffpos(u) with symbolic u: each image listed exactly once '
+      'on every coincidence stratum.',
+      'Subgroups enumerated by closure; premise tolerance 1e-9, conclusion 1e-6; crystal sites enumerated; Wyckoffpos on crystals with <=8 '
+      'operations with a guard band around special coordinates; addbasis-with-full-orbit is not covered. One defect found and fixed '
+      '(rotoreflections in VectorBasis: pure S4 site symmetry).',
+      'DESIGN.md 3/C20')
+
 na('C01', 'exact oracle is an infinite-state pair Markov chain reached through Brillouin-zone quadrature, LAPACK and hyp1f1/expi; '
           'agreement only to integration accuracy: no algebraic statement a solver can decide (DESIGN 5)')
 na('C06', 'identities hold only for the true lattice Green function of the omega0 network (numerical k-space integration); '
